@@ -98,7 +98,10 @@ def main(argv=None):
         16, os.cpu_count() or 4)
     if args.replay:
         nshards = 1
-    tmp_base = tempfile.mkdtemp(prefix=f'vf-{prop}-')
+    shm = '/dev/shm' if (
+        os.path.isdir('/dev/shm') and os.access('/dev/shm', os.W_OK)
+        and not getattr(mod, 'NEEDS_DISK', False)) else None
+    tmp_base = tempfile.mkdtemp(prefix=f'vf-{prop}-', dir=shm)
     procs = []
     try:
         for i in range(nshards):
